@@ -160,6 +160,12 @@ type RecBackend struct {
 	// Gate, if set, is called at named points ("data-begin", "data-return") and may block.
 	Gate func(point string, n int)
 	nData int
+	// CloseAt: the n-th (1-based) call of the named callback calls CloseFn (Server.Close) from another
+	// goroutine and waits for its return; see closeat.go.
+	CloseAt   map[string]int
+	CloseFn   func() error
+	nCloseAt  map[string]int
+	closeWait chan struct{}
 }
 
 func (b *RecBackend) add(e *Sx) {
@@ -195,6 +201,7 @@ func (b *RecBackend) NewSession(c *smtp.Conn) (smtp.Session, error) {
 	e := b.popErr(&b.script.NS)
 	_, isTLS := c.TLSConnectionState()
 	b.add(L(A("ns"), XS(c.Hostname()), B(isTLS), e.Sx()))
+	b.maybeClose("ns")
 	if e.Kind != "nil" {
 		return nil, e.Err()
 	}
@@ -296,6 +303,7 @@ type recSession struct{ b *RecBackend }
 
 func (s *recSession) Reset() {
 	s.b.add(L(A("reset")))
+	s.b.maybeClose("reset")
 	s.b.maybePanic("reset")
 }
 
@@ -329,6 +337,7 @@ func optStr(p *string) *Sx {
 func (s *recSession) Mail(from string, o *smtp.MailOptions) error {
 	e := s.b.popErr(&s.b.script.Mail)
 	defer s.b.maybePanic("mail")
+	defer s.b.maybeClose("mail")
 	s.b.add(L(A("mail"), XS(from),
 		L(A("mo"), XS(string(o.Body)), Num(o.Size), B(o.RequireTLS), B(o.UTF8), XS(string(o.Return)), XS(o.EnvelopeID), optStr(o.Auth)),
 		e.Sx()))
@@ -338,6 +347,7 @@ func (s *recSession) Mail(from string, o *smtp.MailOptions) error {
 func (s *recSession) Rcpt(to string, o *smtp.RcptOptions) error {
 	e := s.b.popErr(&s.b.script.Rcpt)
 	defer s.b.maybePanic("rcpt")
+	defer s.b.maybeClose("rcpt")
 	n := L()
 	for _, v := range o.Notify {
 		n.Add(XS(string(v)))
@@ -381,12 +391,18 @@ func (s *recSession) deliver(r io.Reader, status smtp.StatusCollector) (ret erro
 	if s.b.Gate != nil {
 		s.b.Gate("data-begin", k)
 	}
+	if !isPipe {
+		s.b.maybeClose("data-begin")
+	}
 	if status != nil && p.Early {
 		for _, sc := range p.Status {
 			status.SetStatus(sc.Addr, sc.Err.Err())
 		}
 	}
 	got, rerr := readPlanCap(r, p.Sizes, p.Stop, isPipe)
+	if !isPipe {
+		s.b.maybeClose("data-end")
+	}
 	term := ErrKind(rerr)
 	planRet := p.Ret.Err()
 	if rerr != nil && rerr != io.EOF && p.Prop {
@@ -472,6 +488,7 @@ func (r *recSasl) Next(resp []byte) ([]byte, bool, error) {
 		rs = L(A("some"), X(resp))
 	}
 	r.b.add(L(A("authnext"), rs, X(st.Challenge), B(st.Done), st.Err.Sx()))
+	r.b.maybeClose("authnext")
 	return st.Challenge, st.Done, st.Err.Err()
 }
 
